@@ -24,6 +24,7 @@ type podSpec struct {
 	Labels      map[string]string `json:"labels,omitempty"`
 	Annotations map[string]string `json:"annotations,omitempty"`
 	RV          int               `json:"rv"`
+	Node        string            `json:"node,omitempty"` // spec.nodeName; "" stands for node1
 }
 
 func (p *podSpec) id() string { return p.NS + "/" + p.Name }
@@ -47,6 +48,9 @@ type lookup struct {
 	IP    string `json:"ip"`
 	Times int    `json:"times"`
 	Sink  bool   `json:"via_ipsink,omitempty"`
+	// Consume: after the lookup a metric or event from this IP goes through the real consumers of the
+	// answer (CloudHandler -> TagHandler -> a sink that keys by FormatTagsKey), then the IP is looked up again
+	Consume *consume `json:"consume,omitempty"`
 }
 
 type op struct {
@@ -83,6 +87,12 @@ type history struct {
 	ParkAt  int    `json:"park_at,omitempty"`
 	ParkIP  string `json:"park_ip,omitempty"`
 	Variant string `json:"variant,omitempty"`
+	// engine "config": the provider is built by NewProviderFromViper from Conf; Ops[:ListFirst] happen before it
+	// starts (they reach it through the initial list), the rest through the watch
+	Conf      *k8sConf `json:"k8s_config,omitempty"`
+	ListFirst int      `json:"ops_before_start,omitempty"`
+	// consumers of lookup answers (mode "consume")
+	Pipe *pipeConf `json:"pipeline,omitempty"`
 }
 
 // ---------------------------------------------------------------------------------------------------
@@ -148,6 +158,8 @@ func refTagName(re *regexp.Regexp, key string) (string, bool) {
 
 type config struct {
 	labelRe, annRe *regexp.Regexp
+	// visible: which pods the configuration lets the provider watch (nil: the whole cluster)
+	visible func(p *podSpec) bool
 }
 
 func (c *config) answerOf(p *podSpec) *answer {
@@ -190,6 +202,9 @@ func (m *model) apply(o *op) {
 func (m *model) holder(ip string) *podSpec {
 	var h *podSpec
 	for _, p := range m.pods {
+		if m.cfg.visible != nil && !m.cfg.visible(p) {
+			continue
+		}
 		if holds(p) && p.PodIP == ip {
 			if h != nil {
 				panic("generator invariant broken: two pods hold " + ip)
